@@ -690,6 +690,11 @@ func (a *Application) transformStreamAndWaitForProxy(
 	// transform stream (blocks until done)
 	transformErr := trans.TransformStreamingResponse(ctx, pipeReader, w, r)
 
+	// The translator can stop before the backend does (a line longer than it accepts, a client
+	// that stopped reading): close the read side so a proxy goroutine that is still writing into
+	// the pipe is released instead of blocking this handler for ever.
+	pipeReader.Close()
+
 	// Wait for proxy to complete
 	proxyErr := <-proxyErrChan
 
